@@ -3,6 +3,7 @@ Structural clauses (DESIGN.md section 4, C11)."""
 import re
 
 import common
+from mir import agg_stmts
 from common import user_call_kind
 from mir import agg_direct
 
@@ -26,7 +27,10 @@ def run(ctx):
     R3 = rep.rule('C11.R3', 'RecursiveDirectory::load: own directory with `?`, children only on Ok, failing child skipped', floor=3)
     R4 = rep.rule('C11.R4', 'iter loads / iter_cached only looks up; Arc<T> forwards', floor=6)
     R5 = rep.rule('C11.R5', 'archive sources: a directory listing that was already started is never replaced (an entry of a directory may come before or after the directory member itself)', floor=2)
+    R6 = rep.rule('C11.R6', 'the file-system source lists what it can read: entries are classified by following links (Path::is_file / is_dir), like read and exists do', floor=2)
     for cfg, F in ctx.cfgs():
+        r6(R6, cfg, F)
+        R6.finish_cfg(cfg)
         r1(R1, cfg, F)
         r2(R2, cfg, F)
         r3(R3, cfg, F)
@@ -36,6 +40,39 @@ def run(ctx):
         if any(x in ctx.cfg_features[cfg] for x in ('zip', 'tar')):
             r5(R5, cfg, F)
             R5.finish_cfg(cfg)
+
+
+NO_FOLLOW = re.compile(r'^std::fs::DirEntry::(file_type|metadata)$|^std::fs::symlink_metadata$|^std::path::Path::(symlink_metadata|is_symlink)$|^std::fs::FileType::')
+
+
+def r6(R6, cfg, F):
+    """`read(id, ext)` and `exists` of the FileSystem source follow symbolic links (fs::read, Path::exists).  `read_dir`
+    must agree with them, or load_dir lists fewer entries than load can read: the File arm is taken on
+    Path::is_file() and the Directory arm on Path::is_dir() (both follow links); nothing in the source asks the
+    directory entry itself for its type (DirEntry::file_type / metadata, symlink_metadata do not follow links)."""
+    b = F.body('<source::filesystem::FileSystem as source::Source>::read_dir')
+    if not b:
+        R6.missing(cfg, 'FileSystem::read_dir')
+        return
+    bad = [c for x in F.fn_bodies() if x.path.startswith(('source::filesystem::', '<source::filesystem::')) for c in x.calls() if c.callee and NO_FOLLOW.search(c.callee.best)]
+    for c in bad:
+        R6.bad(cfg, c.body.path, 'asks-the-entry-not-the-path:' + c.callee.name, '`%s` does not follow symbolic links, while reading an entry does: a linked file or directory would be readable but never listed' % c.callee.best, c.loc())
+    if not bad:
+        R6.ok(cfg, 'source::filesystem', 'no-link-blind-classification', b.loc())
+    # the two arms
+    fcalls = [c for c in b.calls() if user_call_kind(c) == 'indirect']
+    isf = [c for c in b.calls() if c.callee and c.callee.best == 'std::path::Path::is_file']
+    isd = [c for c in b.calls() if c.callee and c.callee.best == 'std::path::Path::is_dir']
+    ok = len(isf) == 1 and len(isd) == 1 and len(fcalls) == 2
+    if ok:
+        got = {}
+        for c in fcalls:
+            tg = [(x.callee.name, t) for x, t in common.call_truth_guards(b, c.bb) if x in (isf[0], isd[0])]
+            ags = [st for st in agg_stmts(b, c.args[1])] if len(c.args) > 1 else []
+            kinds = {st['rv'].get('variant_name') for st in ags if st['rv'].get('adt') == 'source::DirEntry'}
+            got[tuple(sorted(kinds))] = sorted(tg)
+        ok = got.get(('File',)) is not None and ('is_file', True) in got[('File',)] and got.get(('Directory',)) is not None and ('is_dir', True) in got[('Directory',)]
+    R6.check(ok, cfg, b.path, 'File-iff-is_file;Directory-iff-is_dir', 'read_dir must report DirEntry::File for entries whose path is_file() and DirEntry::Directory for those whose path is_dir() (link-following tests)', b.loc())
 
 
 def r5(R5, cfg, F):
@@ -235,7 +272,7 @@ def r3(R3, cfg, F):
         lit = agg_direct(b, sd[0].args[2])
         if lit is None:
             # the closure may be bound to a name before it is passed
-            dp = common.deep_path(b, sd[0].args[2], at=sd[0].bb) or ['']
+            dp = common.strip_refs(common.deep_path(b, sd[0].args[2], at=sd[0].bb)) or ['']     # by value or as `&mut closure`
             m_ = re.match(r'agg@bb(\d+)\.(\d+)$', dp[0]) if len(dp) == 1 else None
             lit = b.blocks[int(m_.group(1))]['stmts'][int(m_.group(2))] if m_ else None
 
@@ -302,14 +339,30 @@ def r4(R4, cfg, F):
     for dty in ('Directory', 'RecursiveDirectory'):
         for meth, adaptor, want, forbidden in (('iter', 'map', 'load', ()), ('iter_cached', 'filter_map', 'get_cached', ('load', 'load_expect', 'load_owned', 'get_or_insert'))):
             b = F.body('dirs::%s::<T>::%s' % (dty, meth))
-            cb = F.body('dirs::%s::<T>::%s::{closure#0}' % (dty, meth))
-            if not b or not cb:
+            if not b:
                 R4.missing(cfg, 'dirs::%s::%s' % (dty, meth))
                 continue
-            ids = [c for c in b.calls() if c.callee and c.callee.best == 'dirs::%s::<T>::ids' % dty]
             ad = [c for c in b.calls() if c.callee and c.callee.trait == 'std::iter::Iterator']
-            ok = len(ids) == 1 and len(ad) == 1 and ad[0].callee.name == adaptor and b.access_path(ad[0].args[0]) == ['call@bb%d' % ids[0].bb] \
-                and b.origins(ids[0].args[0]) == {('arg', 1)} and ad[0].dest['l'] == 0
+            # the closure handed to the adaptor, wherever it is written (in the method, or in a helper written in place)
+            cb = None
+            if len(ad) == 1 and len(ad[0].args) == 2:
+                lit = agg_direct(b, ad[0].args[1])
+                cb = F.body(lit['rv'].get('closure')) if lit is not None and lit['rv'].get('closure') else None
+            if not cb:
+                R4.missing(cfg, 'dirs::%s::%s: the closure of its one iterator adaptor' % (dty, meth))
+                continue
+            # what is iterated: self.ids() or self.ids.iter()
+            rp = common.deep_path(b, ad[0].args[0], at=ad[0].bb) or []
+            src = [c for c in b.calls() if rp == ['call@bb%d' % c.bb]]
+            ok = len(src) == 1 and ad[0].callee.name == adaptor and (ad[0].dest['l'] == 0 or b.origins(0) == {('call', ad[0].bb)})
+            if ok and src[0].callee and src[0].callee.best == 'dirs::%s::<T>::ids' % dty:
+                ok = b.origins(src[0].args[0]) == {('arg', 1)}
+            elif ok:
+                sp = common.strip_refs(common.deep_path(b, src[0].args[0], at=src[0].bb))
+                if sp[:1] and sp[0].startswith('call@bb'):       # <Vec as Deref>::deref(&self.ids)
+                    dc = [c for c in b.calls() if 'call@bb%d' % c.bb == sp[0] and c.callee and c.callee.name == 'deref']
+                    sp = common.strip_refs(common.deep_path(b, dc[0].args[0], at=dc[0].bb)) if dc else sp
+                ok = bool(src[0].callee) and src[0].callee.name == 'iter' and sp == ['arg1', 'ids']
             cs = [c.callee.name for c in cb.calls() if c.callee and 'AnyCache' in c.callee.best]
             ok = ok and cs == [want] and cb.origins([c for c in cb.calls() if c.callee.name == want][0].args[1], passthrough=common.pt_deref) == {('arg', 2)}
             reach = F.reach([cb.path])
